@@ -365,6 +365,17 @@ func (w *smaWorld) step(ci int, k int, split bool) bool {
 		c.sc.ArmWriteFault(&WriteFault{Kind: items[0].failWrite, After: items[0].failAfter})
 		armed = items[0].failWrite
 	}
+	for _, it := range items {
+		cls := it.kind
+		if it.kind == "cer" {
+			if it.spec.accept() {
+				cls = "cer+"
+			} else {
+				cls = "cer-"
+			}
+		}
+		e.Act("item:"+cls, "")
+	}
 	e.Act("deliver", "%s items %d..%d (%d B) %s", c.name, c.next, c.next+k-1, len(burst), armed)
 	wasClosed := c.sc.Closed()
 	if split && len(burst) > 2 {
